@@ -1265,6 +1265,21 @@ public:
     }
     else if_constexpr_named(cond2, detail::rlbox_is_tainted_v<T_Rhs>)
     {
+      // The sandbox representation of a pointer may be an integer, so the
+      // conversion below would not notice pointers of incompatible types
+      if_constexpr_named(
+        subcond2,
+        std::is_pointer_v<T> &&
+          !std::is_assignable_v<
+            T&,
+            detail::rlbox_remove_wrapper_t<std::remove_cv_t<T_Rhs>>>)
+      {
+        rlbox_detail_static_fail_because(
+          cond2 && subcond2,
+          "Trying to assign a tainted value to a pointer field of an "
+          "incompatible type");
+      }
+
       using namespace detail;
       convert_type_non_class<T_Sbx,
                              adjust_type_direction::TO_SANDBOX,
